@@ -5,7 +5,9 @@
 (* coordinates are numerators over 2^sx (2^sy), nodal data numerators over 2^sv, a        *)
 (* quadrature result is logged times 2^(sx+1+sv) (1-D), 2^(sx+sy+2+sv) (2-D),            *)
 (* 2^(sx+sy+2+2sv) (square_trapezium), an interpolated value times 2^sv as a reduced      *)
-(* rational [n, d]; TLC recomputes each of them from the model state.  `post` is the      *)
+(* rational [n, d]; TLC recomputes each of them from the model state.  Coordinates are    *)
+(* relative to the case's offsets ox, oy (translation; only the harness knows them); a   *)
+(* nearly uniform grid carries fine numerators xf / 2^kx (Mesh.tla).  `post` is the      *)
 (* store after the call, read back node by node through get_nodes_vars.  An event with a  *)
 (* `pre` field starts a new history.                                                      *)
 (* Writes to a non-existent node or with a vector of the wrong length must leave the      *)
@@ -66,11 +68,19 @@ Explained1(e, M) ==
                                  ELSE Unchanged(e, M)
     \* interpolation at an arbitrary interior point (>= 1e-6 from every node): measured error in units
     [] e.op = "interp_any" -> Read(e, M) /\ Len(e.units) = M.nv /\ AllLe(e.units, InterpAnyGuard)
-    [] e.op = "trap" -> IF InVar(M, e.var) THEN Read(e, M) /\ e.ri = Trap1x2(M, e.var) ELSE Unchanged(e, M)
+    \* trapezium, exact: ri + rl / 2^kx  (rl = 0 on plain grids; see Mesh.tla, grids with a fine part)
+    [] e.op = "trap" -> IF InVar(M, e.var) THEN Read(e, M) /\ <<e.ri, e.rl>> = Trap1x2F(M, e.var) ELSE Unchanged(e, M)
     \* output(file, p) then read(file) into another mesh: same number of nodes, each node and variable within 10^-p
-    [] e.op = "roundtrip" -> /\ Read(e, M) /\ e.nn = N1(M) /\ Len(e.nu) = N1(M) /\ AllLe(e.nu, RoundTripGuard)
-                             /\ Len(e.vu) = N1(M)
-                             /\ \A k \in 1..Len(e.vu) : Len(e.vu[k]) = M.nv /\ AllLe(e.vu[k], RoundTripGuard)
+    \* the receiving mesh held other data on another grid (fewer / more / equally many nodes).  Afterwards, through every
+    \* accessor: node count nn, nvars nvr; nodes() (nu), coord (cu), get_nodes_vars (gu), index (vu) each within one unit of
+    \* 10^-p; trapezium of every variable (tu) within one unit of the bound that follows from those deviations
+    [] e.op = "roundtrip" -> /\ Read(e, M) /\ e.nn = N1(M) /\ e.nvr = M.nv
+                             /\ Len(e.nu) = N1(M) /\ AllLe(e.nu, RoundTripGuard)
+                             /\ Len(e.cu) = N1(M) /\ AllLe(e.cu, RoundTripGuard)
+                             /\ Len(e.vu) = N1(M) /\ Len(e.gu) = N1(M)
+                             /\ \A k \in 1..N1(M) : /\ Len(e.vu[k]) = M.nv /\ AllLe(e.vu[k], RoundTripGuard)
+                                                    /\ Len(e.gu[k]) = M.nv /\ AllLe(e.gu[k], RoundTripGuard)
+                             /\ Len(e.tu) = M.nv /\ AllLe(e.tu, RoundTripGuard)
     [] OTHER -> FALSE
 
 Explained2(e, M) ==
@@ -99,8 +109,9 @@ Explained2(e, M) ==
                          THEN LET A == VarAsMatrix(M, e.var)
                               IN Read(e, M) /\ e.rm.r = A.r /\ e.rm.c = A.c /\ e.rm.d = A.d
                          ELSE Unchanged(e, M)
-    [] e.op = "trap" -> IF InVar(M, e.var) THEN Read(e, M) /\ e.ri = Trap2x4(M, e.var) ELSE Unchanged(e, M)
-    [] e.op = "sq_trap" -> IF InVar(M, e.var) THEN Read(e, M) /\ e.ri = SqTrap2x4(M, e.var) ELSE Unchanged(e, M)
+    \* exact: ri + rl / 2^(kx+ky)
+    [] e.op = "trap" -> IF InVar(M, e.var) THEN Read(e, M) /\ <<e.ri, e.rl>> = Trap2x4F(M, e.var) ELSE Unchanged(e, M)
+    [] e.op = "sq_trap" -> IF InVar(M, e.var) THEN Read(e, M) /\ <<e.ri, e.rl>> = SqTrap2x4F(M, e.var) ELSE Unchanged(e, M)
     [] OTHER -> FALSE
 
 Explained(e, M) == IF e.kind = "m1" THEN Explained1(e, M) ELSE Explained2(e, M)
@@ -120,7 +131,7 @@ MaxOf(S) == IF S = {} THEN 0 ELSE CHOOSE x \in S : \A y \in S : y <= x
 Plausible(e, M, X) == /\ ShapeOK(e, M)
                       /\ LET b == MaxOf(Entries(e, M.vars) \cup Entries(e, X.vars)) IN \A x \in Entries(e, e.post) : x <= b
 
-Init == l = 1 /\ cur = New1(<<0, 1>>, 1) /\ TLCSet(1, 0)
+Init == l = 1 /\ cur = [xf |-> <<0, 0>>, kx |-> 0] @@ New1(<<0, 1>>, 1) /\ TLCSet(1, 0)
 Step == /\ l <= NRec
         /\ LET e == Rec[l]
                M == Pre(e)
